@@ -350,7 +350,46 @@ def r4(ctx):
     ctx.ob('C11.R4', fn, fn.body, not bad, 'derived: master+5 is a plain slave address', 'conflicts: %s' % bad)
 
 
+def crc_start_rule(ctx, rid):
+    ctx.rule(rid, 'the CRC of every message part starts from 0: each transition of handleReceive that (re-)enters a part from '
+             'another state than ready (the command again after a NAK, the response after the command, the response again '
+             'after a NAK) either passes an explicit m_crc = 0 on every path from its case label, or setState() clears the '
+             'CRC on every path for that target state; in ready the CRC already holds the first symbol', minimum=6)
+    import rules.automaton as A
+    fb = ctx.fb
+    fn, sw, regs, edges, rmap = A.extracted_edges(fb)
+    states, _ = A.bus_states(fb)
+    inv = {v: k for k, v in states.items()}
+    ss = fb.fn(A.SS)
+    ctx.touch(fn)
+    ctx.touch(ss)
+    sets = [nid for nid, d, rhs, op, lhs in ss.assignments() if d == 'this.m_state']
+    crc0s = set(nid for nid, d, rhs, op, lhs in ss.assignments() if d == 'this.m_crc' and rhs is not None and ss.val(rhs) == 0)
+    if len(sets) != 1:
+        raise AnalysisBroken('%s: expected one assignment to m_state in setState' % rid)
+    sp = ss.pos(sets[0])
+
+    def setstate_clears(target):
+        cut = ss.edges_with_atom('(%s == #%d)' % (ss.P(0), inv[target]), False)
+        return bool(crc0s) and not ss.reaches_point(sp[0], (ss.exit, 0), crc0s, start_idx=sp[1] + 1, cut_edges=cut)
+    z = set(nid for nid, d, rhs, op, lhs in fn.assignments() if d == 'this.m_crc' and rhs is not None and fn.val(rhs) == 0)
+    n = 0
+    for e in edges:
+        tgt = [t for t in e['to'] if t in ('bs_recvCmd', 'bs_sendCmd', 'bs_recvRes', 'bs_sendRes')]
+        if not tgt or len(e['from']) != 1 or e['from'][0] == 'bs_ready':
+            continue
+        n += 1
+        lab = sw['labels'][inv[e['from'][0]]]
+        explicit = not fn.reaches_point(lab, fn.pos(e['node']), z)
+        by_ss = all(setstate_clears(t) for t in e['to'])
+        ctx.ob(rid, fn, e['node'], explicit or by_ss, '%s -> %s [%s]' % (e['from'][0].replace('bs_', ''), '|'.join(t.replace('bs_', '') for t in e['to']), e['result']),
+               'explicit m_crc = 0 on every path: %s; cleared by setState for the target: %s' % (explicit, by_ss))
+    if n < 6:
+        raise AnalysisBroken('%s: only %d part (re-)entries found' % (rid, n))
+
+
 def run(ctx):
+    crc_start_rule(ctx, 'C11.R6')
     r1(ctx)
     r2(ctx)
     r3(ctx)
@@ -359,3 +398,5 @@ def run(ctx):
     ctx.borrow(c01.r4, {'C01.R4': 'C11.R5'},
                'the CRC is defined over the escaped sequence: in the protocol handler the received symbol enters the CRC '
                'before it is unescaped, and in exactly the data states')
+    import rules.C01 as _c01
+    _c01.unescape_rule(ctx, 'C11.R7')
